@@ -174,4 +174,58 @@ PROPS = {
         "assumptions": ["allowance fixed at 32 KiB + 4 KiB per thread"],
         "real": LZ_REAL, "stub": LZ_STUB,
     },
+
+    "C06": {
+        "level": "exploration",
+        "legs": {
+            "quick": [{"flavour": "asan", "runs": 20000, "seconds": 150},
+                      {"flavour": "tsan", "runs": 1500, "seconds": 60, "scen": "encoder_determinism"}],
+            "thorough": [{"flavour": "asan", "runs": 300000, "seconds": 1500},
+                         {"flavour": "tsan", "runs": 20000, "seconds": 500, "scen": "encoder_determinism"}],
+        },
+        "nontrivial": "features",
+        "level_text": "The classic simulation oracle 'the answer must not depend on delivery timing', applied to lzma_code(): the same "
+                      "request is executed under several delivery schedules (one-shot; one byte in / one byte out; seeded random "
+                      "slices with empty calls; every kind of two-piece split; slices of one byte around an aimed position) and, "
+                      "for encoders, under different thread counts, timeouts and seeded thread schedules, and with the chain given "
+                      "as a struct or through lzma_str_from_filters/lzma_str_to_filters. Decoders: stream, auto, .lzma, .lz, raw, "
+                      "threaded; inputs: generated .xz/.lzma/.lz/raw artefacts and every file of tests/files, clean or with "
+                      "stored-byte faults. Compared: concatenated output, final status, total_in, sequence of *_CHECK notices "
+                      "(behind a BCJ filter on rejected input: status and total_in). Encoders: output bytes of the sliced / "
+                      "threaded / scheduled session == one-thread one-shot session with the same action history.",
+        "level_note": "Known findings (known_findings.json): on REJECTED input the amount of output delivered and of input consumed "
+                      "when the error is reported depends on slicing (status does not; one output is a prefix of the other); the "
+                      "threaded decoder's total_in at an error depends on timing. Valid input and all statuses are compared strictly.",
+        "rule": "One evaluation = one request executed under 3-5 delivery schedules (decoders) or under the plan's schedule plus the "
+                "canonical one (encoders). distinct_nontrivial = distinct (coder, artefact, status, fault, plan) tuples.",
+        "assumptions": ["inputs <= 20 KiB (quick) / 60 KiB (thorough) for decoders, <= 60/200 KiB for encoders"],
+        "real": LZ_REAL, "stub": LZ_STUB,
+    },
+    "C05": {
+        "level": "fault_enumeration",
+        "legs": {
+            "quick": [{"flavour": "asan", "runs": 90000, "seconds": 160}],
+            "thorough": [{"flavour": "asan", "runs": 400000, "seconds": 1200}],
+        },
+        "nontrivial": "features",
+        "level_text": "Stored-byte faults on valid artefacts. Four fifths of the runs are a complete sweep: six small artefacts (.xz one "
+                      "Block CRC32; three Blocks incl. an empty one, delta+LZMA2, SHA-256; two Streams with Stream Padding, CRC64; "
+                      ".xz without check; .lzma; two-member .lz v1+v0) x every single-bit flip and every truncation length x four "
+                      "decoder variants (stream with and without LZMA_CONCATENATED, threaded, auto) x three delivery schedules; the "
+                      "sweep index runs over consecutive values, so 14 000 runs cover every (artefact, bit or length) once per "
+                      "decoder variant. One fifth are seeded multi-byte faults (flip, overwrite, insert, delete, truncate, "
+                      "duplicate; 1-3 per file) on larger generated .xz/.lzma/.lz artefacts. A field map built by the artefact "
+                      "writer (magic, Stream Flags, Block Header, payload, Block Padding, Check, Index, Footer, Stream Padding) says "
+                      "which field each fault hits. Oracles: never LZMA_STREAM_END with output differing from the original when the "
+                      "file has a check; in .xz a fault in any non-payload field of the part the decoder is asked to read => error; "
+                      "a file that ends inside a stream is never complete.",
+        "level_note": "Not flagged because the formats define it as valid: cutting at a Stream/member boundary or inside Stream Padding "
+                      "at a multiple of four (a complete shorter file); in .lz, damage that makes a later member not start with the "
+                      "ID string (the format calls the rest foreign trailing data), provided the delivered bytes are exactly the "
+                      "verified leading members.",
+        "rule": "One evaluation = one damaged artefact decoded once. distinct_nontrivial = distinct (artefact, decoder, fault position/"
+                "bit or truncation length) tuples of the sweep plus distinct plans of the seeded part.",
+        "assumptions": ["LZMA_IGNORE_CHECK is never set", "sweep artefacts are <= 420 bytes"],
+        "real": LZ_REAL, "stub": LZ_STUB,
+    },
 }
